@@ -370,10 +370,72 @@ This decides `no new unaudited panic/recursion/loop site`, the enumerated necess
     withdraw(m, ctx);
     acyclic(m, ctx);
     slice_totality(m, ctx);
+    minmax_guard(m, ctx);
     // the generators treat notations the linker expands (selection types, COMPONENTS OF) as unreachable!(): the order of
     // the linking steps is what guarantees that none survives (shared with C09.order)
     crate::rules::c09::order(m, ctx, "C08.order");
     filter_converter(m, ctx);
+}
+
+/// C08.guard: ASN1Value::min / max compare two character-range bounds by their position in a string type's alphabet; they are
+/// reached with whatever strings the source wrote as bounds (`FROM ("".."z")`, `"ab".."c"`, a multi-byte bound). min_max is
+/// evaluated on empty, single, multi-character and multi-byte strings in both positions: every combination returns Ok or Err —
+/// an `unwrap()` on a missing first character is a panic on malformed notation.
+fn minmax_guard(m: &Model, ctx: &mut Ctx) {
+    use crate::eval::{Env, Evaluator, Val};
+    use crate::rules::util::const_resolver;
+    use std::collections::BTreeMap as Map;
+    let Some(f) = m.fns.iter().find(|f| f.name == "min_max" && f.self_ty.as_deref() == Some("ASN1Value")) else {
+        ctx.fail_closed("C08.guard", "anchor not found: ASN1Value::min_max");
+        return;
+    };
+    ctx.func(&f.key);
+    let consts = const_resolver(m);
+    let hook = |_: &Evaluator, name: &str, a: &[Val]| -> Option<Result<Val, String>> {
+        match (name, a.first()) {
+            // the alphabet a..z as (index, char) pairs
+            (".iter", Some(Val::Opaque(s))) if s == "set" => Some(Ok(Val::List((0u8..26).map(|i| Val::Tuple(vec![Val::int(i as i128), Val::Char((b'a' + i) as char)])).collect()))),
+            ("grammar_error!", _) => Some(Ok(Val::Sym("error".into()))),
+            (".clone", Some(v)) if a.len() == 1 => Some(Ok(v.clone())),
+            _ => None,
+        }
+    };
+    let ev = Evaluator { consts: &consts, call_hook: &hook, inline: None };
+    let params: Vec<String> = f.sig.inputs.iter().filter_map(|a| match a { syn::FnArg::Typed(t) => Some(tok(&t.pat)), _ => None }).collect();
+    if params.len() != 3 {
+        ctx.fail_closed("C08.guard", "min_max: expected (other, char_set, getting_minimum)");
+        return;
+    }
+    let st = |s: &str| Val::Ctor("String".into(), vec![Val::Str(s.into())], Map::new());
+    let strings = ["", "a", "z", "ab", "\u{e9}", "\u{20ac}x", " "];
+    let mut n = 0;
+    let mut reported = false;
+    for a in strings {
+        for b in strings {
+            for min in [true, false] {
+                n += 1;
+                let mut env = Env::new();
+                env.insert("self".into(), st(a));
+                env.insert(params[0].clone(), st(b));
+                env.insert(params[1].clone(), Val::some(Val::Opaque("set".into())));
+                env.insert(params[2].clone(), Val::Bool(min));
+                match ev.eval_fn_body(&f.block, &mut env) {
+                    Ok(Val::Ctor(k, _, _)) if k == "Ok" || k == "Err" => {}
+                    Ok(o) => { ctx.fail_closed("C08.guard", &format!("[min_max({:?}, {:?})]: {}", a, b, o.show())); return }
+                    Err(e) if e.contains("would panic") => {
+                        if !reported {
+                            reported = true;
+                            ctx.violate("C08.guard", "min_max", &f.file, f.line,
+                                &format!("ASN1Value::min_max({:?}, {:?}, alphabet) panics: {} — a character range bound written as {:?} (e.g. `IA5String (FROM (\"abc\") ^ FROM (\"\"..\"z\"))`) must be reported as Err", a, b, e, if a.chars().count() != 1 { a } else { b }));
+                        }
+                    }
+                    Err(e) => { ctx.fail_closed("C08.guard", &format!("[min_max({:?}, {:?})]: {}", a, b, e)); return }
+                }
+            }
+        }
+    }
+    ctx.oblige("C08.guard", "min_max", true);
+    ctx.floor("C08.guard/evaluations", n, 90);
 }
 
 /// C08.slice: the excerpt helper behind contextualize() slices the source text by byte counts. It is evaluated on texts
